@@ -31,6 +31,8 @@ var (
 	vrtSeq     int
 	vrtFailed  []string
 	vrtReached = map[string]int{}
+	// vrtCleanups: run when the replay ends (native harness layers register temporary directories here)
+	vrtCleanups []func()
 )
 
 func vrtNext(tag string) uint64 {
@@ -124,6 +126,11 @@ func TestVerifReplay(t *testing.T) {
 		t.Fatal(err)
 	}
 	vrtModel, vrtParams = c.Model, c.Params
+	defer func() {
+		for _, f := range vrtCleanups {
+			f()
+		}
+	}()
 	h, ok := vrtHarnesses[c.Harness]
 	if !ok {
 		t.Fatalf("unknown harness %s", c.Harness)
